@@ -232,7 +232,11 @@ pub mod rust_log_ref_finder
                          */
                         for (kvp_key, kvp_value) in kvp_spans
                         {
-                            if kvp_key.as_str() == ref_kvp_key
+                            /*
+                             * A key may be written as a string literal ("ref" = 5); for the
+                             * log crate that is the same key.
+                             */
+                            if kvp_key.as_str().trim_matches('"') == ref_kvp_key
                             {
                                 match kvp_value
                                 {
